@@ -41,7 +41,9 @@ Inductive payload :=
 | PNone
 | PEmpty
 | PText
-| PFallback (k : fbkind).
+| PFallback (k : fbkind)
+| PSelf (obj : N) (p : payload).    (* positional arguments (obj,) + p: the instance given to session.register(obj),
+                                       prepended as `self` -- an opaque identity, see r_obj *)
 
 Definition p_unser (p : payload) : bool := match p with PVal _ u _ => u | _ => false end.
 Definition p_big (p : payload) : bool := match p with PVal _ _ b => b | _ => false end.
@@ -83,7 +85,9 @@ Inductive sigkind := SigOk | SigShort | SigIllTyped.
 Record regd := { r_details : bool;               (* RegisterOptions(details_arg=...) given *)
                  r_coro : bool;                  (* registered callable is an `async def` *)
                  r_check : bool;                 (* register(..., check_types=True): fn = self.type_check(fn) *)
-                 r_sig : sigkind }.
+                 r_sig : sigkind;
+                 r_obj : option N }.             (* Endpoint.obj: the instance whose decorated method this is (identity
+                                                    only: the code asks `endpoint.obj is not None`, never its truth value) *)
 (* protocol.py type_check(): `async def _type_check( *args, **kwargs)`: inspect.getcallargs(func, *args, **kwargs)
    (TypeError if they do not bind), isinstance checks against func.__annotations__ (TypeCheckError), then
    `return await txaio.as_future(func, *args, **kwargs)` -- the identity on well-typed calls.  Without the wrapper
@@ -101,6 +105,19 @@ Definition is_coro (d : regd) : bool := r_coro d || r_check d.
    `fun( *args, **kwargs)` inside txaio.as_future, before any coroutine object exists *)
 Definition defers (d : regd) : bool :=
   is_coro d && (r_check d || match gate_of d with None => true | Some _ => false end).
+
+(* `if endpoint.obj is not None: invoke_args = (endpoint.obj,)` ... `invoke_args + tuple(msg.args)` *)
+Definition with_self (d : regd) (args : payload) : payload :=
+  match r_obj d with Some o => PSelf o args | None => args end.
+
+(* session.register(obj, options=call_opts, prefix=..): every @wamp.register-decorated method of obj's class, in
+   inspect.getmembers order, is registered with `regopts = pat.options or options`: the method's OWN decorator options
+   if it has any (a RegisterOptions object is always truthy, also one without details_arg), else the call-level ones;
+   no method's options influence another's.  own / call_opts: None = no options object, Some b = options with
+   (b = true) or without a details argument.  A history with an object registration is the history with these
+   ORegister ops in its place. *)
+Definition resolve_details (call_opts own : option bool) : bool :=
+  match own with Some b => b | None => match call_opts with Some b => b | None => false end end.
 
 (* ---------- INVOCATION.Details as the callee path reads them: every option may be ABSENT ----------
    caller / caller_authid (Some 0 = the empty string) / procedure: copied into CallDetails as they are, except
@@ -125,10 +142,17 @@ Inductive op :=
 | OLose                                     (* transport lost: onClose *)
 | OTurn.                                    (* one run of the event loop's ready queue (asyncio; no-op on Twisted) *)
 
+Definition reg_object (obj : N) (call_opts : option bool) (methods : list (N * option bool * bool)) : list op :=
+  map (fun m => let '(reg, own, coro) := m in
+                ORegister reg {| r_details := resolve_details call_opts own; r_coro := coro; r_check := false;
+                                 r_sig := SigOk; r_obj := Some obj |}) methods.
+
 Inductive where_ := InOnMessage | InCallback.   (* raised out of onMessage / out of a future callback (Twisted:
                                                    "Unhandled error in Deferred"; asyncio: loop exception handler) *)
 Inductive out :=
-| OAccepted (k req reg : N) (args : payload) (caller : idet) (rp : option bool) (wants : bool)   (* ghost: entered into _invocations *)
+| OAccepted (k req reg : N) (args : payload) (caller : idet) (rp : option bool) (wants : bool)
+      (* ghost: entered into _invocations; args = the positional/keyword arguments the endpoint is to get
+         (the registered instance first, if any: with_self), caller/rp = the INVOCATION's details, wants = details_arg set *)
 | OCalled (k req reg : N) (args : payload) (det : option (cdet * bool))   (* endpoint body entered; det = CallDetails
                                                                           (caller, progress is callable) if asked *)
 | OSent (m : wmsg)
@@ -348,9 +372,10 @@ Definition step (fl : flavour) (s : st) (o : op) : st * list out :=
       let k := nextk s in
       let clos := r_details d && rp_on rp in                     (* `if endpoint.details_arg: if msg.receive_progress:` *)
       let det := if r_details d then Some (eff_details reg caller, clos) else None in
-      let mk cs := {| c_req := req; c_reg := reg; c_args := args; c_det := det; c_clos := clos; c_st := cs;
+      let cargs := with_self d args in
+      let mk cs := {| c_req := req; c_reg := reg; c_args := cargs; c_det := det; c_clos := clos; c_st := cs;
                       c_gate := gate_of d |} in
-      let acc := OAccepted k req reg args caller rp (r_details d) in
+      let acc := OAccepted k req reg cargs caller rp (r_details d) in
       let enter cs (s0 : st) := {| regs := regs s0; invs := aset req k (invs s0); calls := aset k (mk cs) (calls s0);
                                    up := up s0; joined := joined s0; queue := queue s0; nextk := k + 1 |} in
       match fl, defers d with
